@@ -41,6 +41,8 @@ def check(run):
                 for x in a[:: 1 if thorough else 2]]
         scns += a + b + down + keep
         run.log("%s: %d exhaustive single-origin histories, %d simulated two-origin histories" % (mp, len(a), len(b)))
+    # round 8: 1100 changes queued on one node before anything is sent (more than any fixed queue length a clean-up might pick)
+    scns += crdtlib.burst(1100)
     tpath = crdtlib.execute(run, scns, "c09")
     v = vlib.Verdict(run)
     nev, validated, rejected, tstates = crdtlib.validate(run, "C09", scns, tpath, v)
